@@ -308,6 +308,26 @@ def C07_6(ctx, facts):
     ctx.ok("CloseFuture::poll|forwards", "CloseFuture::poll forwards to the boxed future") if any(norm(c.decl or c.name).endswith("::poll") for c in cf.calls()) else ctx.bad("CloseFuture::poll|forwards", "CloseFuture::poll does not poll its inner future", cf.where())
 
 
+def C07_7(ctx, facts):
+    """The shutdown request must reach a connection that was spawned but has not been polled yet: the broadcast has to be
+    level-triggered (a watch channel keeps the state; a receiver created or first polled later still sees it).
+    `Notify::notify_waiters` wakes only tasks that are already waiting and stores nothing - a connection handed to the executor
+    an instant before the signal would be served as if nothing had happened and never be closed."""
+    sites = []
+    for g in facts.fns.values():
+        if not g.nkey.startswith(("server", "<server")):
+            continue
+        for c in g.calls():
+            if c.matches(r"tokio::sync::Notify::notify_waiters$|tokio::sync::notify::Notify::notify_waiters$|Notify::notify_one$|Notify::notify_last$"):
+                sites.append(c)
+    ctx.check(not sites, "shutdown-broadcast|level-triggered", "the server signals through watch channels only (no edge-triggered Notify broadcast)",
+              "the server broadcasts with %s: tasks that are not waiting yet never see the signal" % sorted({norm(c.name).split("::")[-1] + " in " + c.fn.nkey for c in sites}),
+              sites[0].where() if sites else None)
+    # positive witness that the rule looks at the right module: the watch channel is what the server's signalling is built on
+    uses = [c for g in facts.fns.values() if g.nkey.startswith(("server", "<server")) for c in g.calls() if "tokio::sync::watch::" in norm(c.name)]
+    ctx.floor("shutdown-broadcast|watch-uses", len(uses), 2, "uses of tokio::sync::watch in the server")
+
+
 def C07_waker(ctx, facts):
     n = 0
     for key in (("server::GracefulShutdown", "Future", "poll"), ("server::Serving", "Future", "poll"), ("server::conn::drivers::ConnectionDriver", "Future", "poll"),
@@ -327,5 +347,6 @@ RULES = [
     ("C07.4", C07_4, ["default"]),
     ("C07.5", C07_5, ["default"]),
     ("C07.6", C07_6, ["default"]),
+    ("C07.7", C07_7, ["default"]),
     ("E-WAKER", C07_waker, ["default"]),
 ]
